@@ -44,6 +44,7 @@ class Termination(explore.Scenario):
     max_points = 60000
     idle_window = 10.0
     shared = SHARED_NODE
+    auto_shared = True
 
     def driver(self, rt):
         P = self.params
